@@ -1,10 +1,12 @@
 """C12 — Compiled GP trees compute what the prefix tree denotes; printing round-trips (deap/gp.py)."""
+import ast
 import itertools
 import os
 import random
 import re
 import struct
 import sys
+import warnings
 
 from lib import Case
 from deap import gp
@@ -16,33 +18,45 @@ ANCHORS = [("deap/gp.py", ["PrimitiveTree.__str__", "PrimitiveTree.from_string",
 LEVEL = "partial"
 RULE = ("every primitive set (untyped with 0/1/2 arguments incl. renamed arguments, named terminals (also as the single node "
         "of a zero-argument set), overlapping renamings (swap, 3-cycle, rename onto a freed name), negative constants, anonymous constants equal by == but of different type / sign of zero, "
-        "ephemerals; strongly typed int/bool/float with a subclass pair and dyadic float constants; a two-level ADF family with 1- and 0-argument main sets, a zero-argument ADF set) x "
-        "trees of height 0..6 from genFull/genGrow/genHalfAndHalf and from chains of the variation operators; for each tree: "
-        "str vs strBuilder vs render, the source handed to eval vs compileSrc, re.split tokens vs tokens, from_string(str(t)) vs "
-        "fromString, gp.compile(t)(*args) vs evalTree on an argument grid + random values; plus hand-made strings for the "
-        "tokenizer / type checks of from_string. Non-trivial = distinct tree with more than one node")
+        "ephemerals; strongly typed int/bool/float with a subclass pair and dyadic float constants; untyped and typed STRING sets with unnamed string constants, named strings and "
+        "string ephemerals; a typed int/bool set with bool ephemerals in int slots and a representation-sensitive primitive; a two-level ADF family with 1- and 0-argument main sets, "
+        "a zero-argument ADF set) x trees of height 0..6 from genFull/genGrow/genHalfAndHalf and from chains of the variation operators; for each tree: "
+        "str vs strBuilder vs render, the source handed to eval (captured from gp.compile's own call of eval) vs compileSrc, the hypotheses of the theorems (srcok), "
+        "CPython's ast.parse of that source vs PyLang.parseExpr, the compiled callable vs PyLang.evalSrc of that source and vs evalTree on an argument grid + random values, "
+        "re.split tokens vs tokens, from_string(str(t)) vs fromString; ADF individuals through the source texts (pyadf), a parent followed by an offspring that differs in one "
+        "ADF branch; generated and randomly edited texts of the expression sub-language (every literal form, odd spacing, edge texts) against CPython's parser and evaluator; "
+        "hand-made strings for the tokenizer / type checks of from_string. Non-trivial = distinct tree with more than one node")
 EXHAUSTIVE = {"quick": False, "thorough": False}
 TIME_BUDGET = {"quick": 50, "thorough": 800}
-TRUSTED = ["CPython's eval of the generated source `lambda args: f(g(x), y)`: that a nested call expression evaluates to the "
-           "callable bound to f applied to the values of its arguments, with lambda parameters shadowing pset.context — NOT "
-           "modelled; the theorems reach the source text (compileSrc = 'lambda …: ' + render t) and the correspondence compares "
-           "gp.compile(tree, pset)(*args) with the model's evalTree",
-           "repr/eval round trip of int, bool and dyadic float literals (hypothesis on ParseEnv.ev in the theorems; the driver's "
-           "literal reader is compared with Python on every printed constant)",
+TRUSTED = ["CPython's tokenizer, parser and evaluator on the expression sub-language `lambda a,b: f(g(x), -1, 'c')` — Name, Constant, Call, UnaryOp(USub), Lambda — "
+           "agree with the Lean model Core/PyExpr.lean (parseExpr, evalPy): NOT proved (CPython is not formalised); compared on every run: for every source text DEAP "
+           "hands to eval (captured at the call) the model's AST equals ast.parse's and the model's value equals the compiled callable's, plus generated / edited texts "
+           "where the model may refuse a text but never reads another AST than CPython. What is no longer trusted: that the generated TEXT means the tree — "
+           "C12.parse_compileSrc / evalSrc_compile / pyCompileADF_eq prove it for the model of the language",
+           "repr of int, bool, float and str constants is the text the harness transports (Python's own repr; the model's literal reader is compared with Python on every "
+           "printed constant)",
            "str.format with positional fields, re.split with a character class, collections.deque.extendleft",
            "IEEE-754 double +,-,*,< are the same operations in Lean's Float (float-typed trees)"]
 ASSUMPTIONS = ["node texts (primitive names, argument names, named terminals, reprs of constants) are non-empty and contain no "
-               "separator character ` \\t\\n\\r\\f\\v(),` — ints, floats, bools, identifiers",
+               "separator character ` \\t\\n\\r\\f\\v(),` — ints, floats, bools, identifiers, strings without those characters",
+               "SrcOK / ArgsOK (hypotheses of parse_compileSrc, evaluated by the driver on every compiled tree): primitive, argument and terminal names are ASCII identifiers "
+               "that are not Python keywords, argument names are distinct, constants print as int / float literals (optionally signed), True / False / None, or a quoted "
+               "string whose repr needs no backslash escape (printable ASCII, not both kinds of quote)",
                "the value of an ephemeral / constant has a Python type that is a subclass of its declared type",
-               "float constants are normal doubles (the driver's decimal reader is exact there; subnormals are not generated)"]
+               "the text of an unnamed string constant is not the name of another node of the set (pset.mapping is keyed by str(value): addTerminal('ARG0') would "
+               "take over the argument's entry — see the builder's report, observation O1)",
+               "float constants are normal doubles (the driver's decimal reader is exact there; subnormals are not generated)",
+               "values are first order (int, bool, float, str, None); callables live in the namespace only (a terminal bound to a function object is outside the model)"]
 MIN_CASES = 1000
 CASE_TIMEOUT = 20
 EXPLANATION = ("NOTE on `roundtrip`/`eval_roundtrip`: evalTree reads only kind, name and text of a node, so 'the re-parsed tree "
                "computes the same function' adds nothing beyond 'it prints identically with the same shape' in the model; the "
                "clause gets its content from the correspondence run, where the re-parsed tree is compiled by the real code. "
                "proof for the string builder (all arities), the tokenizer and the parser round trip incl. equal evaluation of the "
-               "re-parsed tree and the ADF evaluation order; partial for 'the compiled callable': Python's evaluator is trusted, "
-               "tied to evalTree by the differential run")
+               "re-parsed tree and the ADF evaluation order; for 'the compiled callable' the path of the code — source text, eval — is modelled end to end: "
+               "the text is tokenized and parsed by a model of the Python expression sub-language and the AST evaluated in the namespace, proved equal to evalTree "
+               "(parse_compileSrc, evalPy_compile, evalSrc_compile, pyCompileADF_eq). Partial only because the agreement of that language model with CPython itself "
+               "is established by differential runs (AST against ast.parse, values against the compiled callable), not by proof")
 
 parse_all, Bad = _c11.parse_all, _c11.Bad
 if hasattr(sys, "set_int_max_str_digits"):
@@ -105,7 +119,28 @@ def f_dbl(a):
     return a + a
 
 
-OPID = {f_dbl: "dbl", f_five: "five", f_add: "add", f_sub: "sub", f_mul: "mul", f_neg: "neg", f_max2: "max2", f_max3: "max3", f_ite: "ite",
+def f_concat(a, b):
+    return a + b
+
+
+def f_rev(a):
+    return a[::-1]
+
+
+def f_upper(a):
+    return a.upper()
+
+
+def f_pick(a, b, c):
+    return b if len(a) % 2 else c
+
+
+def f_width(a):
+    """number of characters needed to write a"""
+    return len(str(a))
+
+
+OPID = {f_concat: "concat", f_rev: "rev", f_upper: "upper", f_pick: "pick", f_width: "width", f_dbl: "dbl", f_five: "five", f_add: "add", f_sub: "sub", f_mul: "mul", f_neg: "neg", f_max2: "max2", f_max3: "max3", f_ite: "ite",
         f_lt: "lt", f_and: "and", f_not: "not", f_id: "id"}
 
 
@@ -133,6 +168,10 @@ def e_fint():
     return random.choice([1.0, -2.0, 0.0, -0.0, 2.0, 0.5, -1.0])
 
 
+def e_str():
+    return random.choice("xyz") * random.randint(1, 2)
+
+
 _uid = [0]
 
 
@@ -145,7 +184,7 @@ def uniq(name):
 # primitive sets
 # ----------------------------------------------------------------------------------------------
 
-TYPES = [object, int, bool, float]
+TYPES = [object, int, bool, float, str]
 
 
 def register_args(pset):
@@ -164,6 +203,12 @@ class PS(object):
     def __init__(self, key, pset):
         self.key, self.pset = key, pset
         assert hasattr(pset, "_argterms"), "register_args(pset) must be called when the set is created"
+        # the terminals that stand for a NAME (arguments, named terminals): decided from the set's tables, never from
+        # Terminal.conv_fct — an unnamed string constant has a str value too, but nothing of its name in the context
+        self.sym = set(id(t) for t in pset._argterms)
+        for k, t in pset.mapping.items():
+            if isinstance(t, gp.Terminal) and isinstance(t.value, str) and k in pset.context:
+                self.sym.add(id(t))
 
     def tid(self, t):
         return TYPES.index(t)
@@ -176,7 +221,16 @@ class PS(object):
         kind = "e" if type(type(n)) is gp.MetaEphemeral else "t"
         # the text the MODEL prints for a terminal comes from its VALUE (str of a symbolic name, Python's own repr of
         # a constant), never from Terminal.format(): a change of the printer is then a disagreement
-        return "%s:%d::%s:%s" % (n.name, self.tid(n.ret), kind, term_text(n))
+        text = self.term_text(n)
+        name = n.name
+        if kind == "t" and isinstance(n.value, str) and id(n) not in self.sym:
+            name = text            # a string constant: from_string names the node after the literal it read
+        return "%s:%d::%s:%s" % (name, self.tid(n.ret), kind, text)
+
+    def term_text(self, n):
+        if isinstance(n.value, str) and (id(n) in self.sym):
+            return n.value
+        return repr(n.value)
 
     def nodes_tok(self, l):
         return ",".join(self.node_tok(n) for n in l) if len(l) else "-"
@@ -210,10 +264,6 @@ class PS(object):
         return ",".join(enc(x) for x in a) if a else "-"
 
 
-def term_text(n):
-    return n.value if isinstance(n.value, str) else repr(n.value)
-
-
 def enc(s):
     if s == "":
         return "-"
@@ -227,7 +277,23 @@ def val_tok(v):
         return "i%d" % v
     if isinstance(v, float):
         return "f%d" % struct.unpack("<Q", struct.pack("<d", v))[0]
+    if isinstance(v, str):
+        return "s" + encd(v)
+    if v is None:
+        return "n"
     return "?" + enc(repr(v))       # not a value of the modelled signature (the oracle reports it)
+
+
+def encd(s):
+    """the encoding of PyLang.encD (no special case for the empty text)"""
+    return "".join(c if (c.isalnum() and ord(c) < 128) or c in "_." else "%%%02x" % ord(c) for c in s)
+
+
+def encs(s):
+    """a source text as a protocol token (decodeText reads `-` as the empty text, so a minus is always escaped)"""
+    if s == "":
+        return "-"
+    return "".join(c if (c.isalnum() and ord(c) < 128) or c in "_." else "%%%02x" % ord(c) for c in s)
 
 
 def untyped(key, nargs, prims, consts, named=(), eph=True, rename=None):
@@ -336,7 +402,62 @@ def typed(key, ins, ret, rename=None):
     return PS(key, p)
 
 
-BUILDERS = {"u2": b_u2, "u2r": b_u2r, "u0": b_u0, "u1": b_u1,
+STR_PRIMS = [(f_concat, 2, "concat"), (f_rev, 1, "rev"), (f_upper, 1, "upper"), (f_pick, 3, "pick")]
+# unnamed string constants: printed with quotes (a digit string, a keyword-like text, one that needs double quotes)
+STR_CONSTS = ["ab", "Q", "42", "True", "it's", "x-1"]
+
+
+def b_us():
+    # untyped set over strings: unnamed string CONSTANTS next to named ones and string-valued ephemerals
+    p = register_args(gp.PrimitiveSet("MAIN", 2))
+    for f, ar, name in STR_PRIMS:
+        p.addPrimitive(f, ar, name=name)
+    p.addTerminal("-", name="SEP")
+    p.addTerminal("", name="EMPTY")
+    for c in STR_CONSTS:
+        p.addTerminal(c)
+    p.addEphemeralConstant(uniq("ES"), e_str)
+    ps = PS("us", p)
+    ps.in_types = [str, str]          # the values the (untyped) arguments are given
+    return ps
+
+
+def b_ts():
+    # the same, strongly typed, with renamed arguments
+    p = register_args(gp.PrimitiveSetTyped("MAIN", [str, str], str))
+    p.addPrimitive(f_concat, [str, str], str, name="concat")
+    p.addPrimitive(f_rev, [str], str, name="rev")
+    p.addPrimitive(f_upper, [str], str, name="upper")
+    p.addPrimitive(f_pick, [str, str, str], str, name="pick")
+    p.addTerminal("-", str, name="SEP")
+    p.addTerminal("", str, name="EMPTY")
+    for c in STR_CONSTS:
+        p.addTerminal(c, str)
+    p.addEphemeralConstant(uniq("EST"), e_str, str)
+    p.renameArguments(ARG0="s", ARG1="t")
+    return PS("ts", p)
+
+
+def b_tw():
+    # int and bool related by subclassing: bool EPHEMERALS (not in pset.mapping, unlike addTerminal(True, bool)) land in
+    # int slots, and `width` tells True from 1
+    p = register_args(gp.PrimitiveSetTyped("MAIN", [int, bool], int))
+    p.addPrimitive(f_add, [int, int], int, name="add")
+    p.addPrimitive(f_mul, [int, int], int, name="mul")
+    p.addPrimitive(f_width, [int], int, name="width")
+    p.addPrimitive(f_ite, [bool, int, int], int, name="if_then_else")
+    p.addPrimitive(f_lt, [int, int], bool, name="lt")
+    p.addPrimitive(f_and, [bool, bool], bool, name="and_")
+    p.addTerminal(0, int)
+    p.addTerminal(-2, int)
+    p.addTerminal(10, int)
+    p.addEphemeralConstant(uniq("EWI"), e_int, int)
+    p.addEphemeralConstant(uniq("EWB"), e_bool, bool)
+    p.renameArguments(ARG0="n", ARG1="flag")
+    return PS("tw", p)
+
+
+BUILDERS = {"us": b_us, "ts": b_ts, "tw": b_tw, "u2": b_u2, "u2r": b_u2r, "u0": b_u0, "u1": b_u1,
             "ti": lambda: typed("ti", [int, float], int),
             "tf": lambda: typed("tf", [float, int, bool], float, rename={"ARG2": "flag", "ARG0": "a"}),
             "tb": lambda: typed("tb", [], bool),
@@ -451,8 +572,9 @@ def make_tree(pset, g):
     return t
 
 
-def interp(nodes, ctx, argmap):
-    """the statement's direct evaluation of the prefix tree with the set's functions / terminals / arguments"""
+def interp(nodes, ctx, argmap, sym=None):
+    """the statement's direct evaluation of the prefix tree with the set's functions / terminals / arguments;
+    sym = ids of the terminals that stand for a name (None: every str-valued terminal does)"""
     def go(i):
         n = nodes[i]
         if isinstance(n, gp.Primitive):
@@ -465,7 +587,7 @@ def interp(nodes, ctx, argmap):
             return n.value, i + 1
         if id(n) in argmap:                       # the terminal of an argument, whatever its (re)name
             return argmap[id(n)], i + 1
-        if isinstance(n.value, str):              # symbolic: a named terminal
+        if isinstance(n.value, str) and (sym is None or id(n) in sym):     # symbolic: a named terminal
             return ctx[n.value], i + 1
         return n.value, i + 1
     v, j = go(0)
@@ -481,6 +603,9 @@ def arg_values(t, rng, k):
     if t is float:
         base = [0.0, 1.0, -0.5, 2.25]
         return base + [rng.choice([-1, 1]) * rng.randint(0, 64) / 16.0 for _ in range(k)]
+    if t is str:
+        base = ["", "a", "hello", "Q", "xy"]
+        return base + ["".join(rng.choice("abQ-_'z9") for _ in range(rng.randint(0, 4))) for _ in range(k)]
     base = [-2, -1, 0, 1, 2]
     return base + [rng.randint(-50, 50) for _ in range(k)]
 
@@ -508,20 +633,149 @@ def same_value(a, b):
     return a == b
 
 
-def capture_compile(tree, pset):
-    """gp.compile, also returning the source string it evaluated"""
-    seen = []
-    real = eval
+class Spy(object):
+    """records what DEAP hands to `eval` (gp.py calls the builtin through its module globals, so a module attribute
+    `gp.eval` intercepts exactly those calls; nothing under $DEAP_REPO is edited)"""
 
-    def spy(code, g=None, l=None):
-        seen.append(code)
-        return real(code, g, l)
-    gp.eval = spy
-    try:
-        f = gp.compile(tree, pset)
-    finally:
+    def __init__(self):
+        self.seen = []
+
+    def __enter__(self):
+        real = eval
+
+        def spy(code, g=None, l=None):
+            self.seen.append((code, g, l))
+            return real(code, g, l)
+        gp.eval = spy
+        return self
+
+    def __exit__(self, *exc):
         del gp.eval
-    return f, (seen[0] if seen else None)
+        return False
+
+
+def capture_compile(tree, pset):
+    """gp.compile, also returning the source string it evaluated and a note when it was not evaluated the way the
+    model assumes (`eval(code, pset.context, {})`, exactly once)"""
+    with Spy() as spy:
+        f = gp.compile(tree, pset)
+    if len(spy.seen) != 1:
+        return f, None, "gp.compile called eval %d times" % len(spy.seen)
+    code, g, l = spy.seen[0]
+    how = None
+    if not isinstance(code, str):
+        how = "gp.compile handed a %s to eval" % type(code).__name__
+    elif g is not pset.context:
+        how = "gp.compile did not evaluate the source in pset.context"
+    elif l != {}:
+        how = "gp.compile evaluated the source with non-empty locals"
+    return f, code, how
+
+
+# ----------------------------------------------------------------------------------------------
+# CPython's own parser, printed the way PyLang.dump prints the model's AST
+# ----------------------------------------------------------------------------------------------
+
+class Outside(Exception):
+    """the text is valid Python but not in the modelled sub-language"""
+
+
+def dump_node(n, top=False):
+    if isinstance(n, ast.Name):
+        return "N" + encd(n.id)
+    if isinstance(n, ast.Constant):
+        v = n.value
+        if getattr(n, "kind", None) is not None:
+            raise Outside("string prefix")
+        if v is True:
+            return "B1"
+        if v is False:
+            return "B0"
+        if v is None:
+            return "Z"
+        if type(v) is int:
+            return "I%d" % v
+        if type(v) is float:
+            return "F%d" % struct.unpack("<Q", struct.pack("<d", v))[0]
+        if type(v) is str:
+            return "S" + encd(v)
+        raise Outside(type(v).__name__)
+    if isinstance(n, ast.UnaryOp) and isinstance(n.op, ast.USub):
+        return "M(%s)" % dump_node(n.operand)
+    if isinstance(n, ast.Call):
+        if not isinstance(n.func, ast.Name) or n.keywords or any(isinstance(a, ast.Starred) for a in n.args):
+            raise Outside("call form")
+        return "C%s(%s)" % (encd(n.func.id), ";".join(dump_node(a) for a in n.args))
+    if isinstance(n, ast.Lambda) and top:
+        a = n.args
+        if a.posonlyargs or a.kwonlyargs or a.vararg or a.kwarg or a.defaults or a.kw_defaults:
+            raise Outside("parameter form")
+        return "L%s(%s)" % (",".join(encd(x.arg) for x in a.args), dump_node(n.body))
+    raise Outside(type(n).__name__)
+
+
+def py_dump(src):
+    """the canonical text of `ast.parse(src, mode='eval')`; None when CPython rejects the text or it is outside the
+    sub-language.  The builtin `eval` strips leading blanks before parsing (ast.parse does not)."""
+    try:
+        with warnings.catch_warnings():
+            warnings.simplefilter("ignore")          # `1if x else 2` only draws a SyntaxWarning
+            tree = ast.parse(src.lstrip(" \t"), mode="eval")
+        return dump_node(tree.body, top=True)
+    except (SyntaxError, ValueError, RecursionError, MemoryError, Outside):
+        return None
+
+
+def py_lines(ps_funs, ps_vars, hasargs, src, tuples, got):
+    """the two protocol lines that tie CPython to the expression model for one source text: (i) the model's parser
+    against CPython's, (ii) the model's evaluator against the values the compiled object returned"""
+    d = py_dump(src)
+    lines = ["C12 pyparse %s" % encs(src),
+             "C12 pyeval %s %s %d %s %s" % (ps_funs, ps_vars, 1 if hasargs else 0, encs(src), tuples_tok(tuples))]
+    expect = [d if d is not None else "none", ",".join(val_tok(v) for v in got)]
+    return lines, expect
+
+
+def compile_adf_spied(trees, fam):
+    """gp.compileADF, also returning the source text evaluated for every set (in `fam` order) and a note when the
+    texts were not evaluated the way the model assumes"""
+    psets = [ps.pset for ps in fam]
+    with Spy() as spy:
+        f = gp.compileADF(trees, psets)
+    if len(spy.seen) != len(psets):
+        return f, None, "gp.compileADF called eval %d times for %d trees" % (len(spy.seen), len(psets))
+    srcs, how = [], None
+    for (code, g, l), pset in zip(reversed(spy.seen), psets):      # compiled innermost (last) set first
+        if not isinstance(code, str):
+            return f, None, "gp.compileADF handed a %s to eval" % type(code).__name__
+        if g is not pset.context and how is None:
+            how = "gp.compileADF did not evaluate the source of %s in its pset.context" % pset.name
+        if l != {} and how is None:
+            how = "gp.compileADF evaluated a source with non-empty locals"
+        srcs.append(code)
+    return f, srcs, how
+
+
+def adf_py_lines(fam, trees, srcs, tuples, got):
+    """compileADF through the very texts DEAP evaluated (the ADF callables are in the globals of the later lambdas),
+    plus, per tree, the model's source and the hypotheses of the theorems"""
+    parts, lines, expect = [], [], []
+    for ps, t, src in zip(fam, trees, srcs):
+        parts.append("%s %s %s %s %s" % (enc(ps.pset.name), ps.args_tok(), ps.funs_tok(), ps.vars_tok(), encs(src)))
+        lines.append("C12 src %s %s" % (ps.args_tok(), ps.nodes_tok(t)))
+        expect.append(enc(src))
+        lines.append("C12 srcok %s %s" % (ps.args_tok(), ps.nodes_tok(t)))
+        expect.append("1")
+        dmp = py_dump(src)
+        lines.append("C12 pyparse %s" % encs(src))
+        expect.append(dmp if dmp is not None else "none")
+    lines.append("C12 pyadf %s %s" % (tuples_tok(tuples), " ".join(parts)))
+    expect.append(",".join(val_tok(v) for v in got))
+    return lines, expect
+
+
+def calls_adf(tree):
+    return set(n.name for n in tree if isinstance(n, gp.Primitive) and n.name.startswith("ADF"))
 
 
 def call(f, pset, args):
@@ -529,11 +783,150 @@ def call(f, pset, args):
 
 
 # ----------------------------------------------------------------------------------------------
+# the expression sub-language itself: generated source texts (odd spacing, every literal form), and texts broken
+# by random edits — CPython's parser / evaluator against PyLang.parseExpr / evalSrc
+# ----------------------------------------------------------------------------------------------
+
+PY_FUNS = {"add": f_add, "sub": f_sub, "mul": f_mul, "neg": f_neg, "max": f_max2, "ite": f_ite, "lt": f_lt,
+           "and_": f_and, "not_": f_not, "five": f_five, "concat": f_concat, "rev": f_rev, "upper": f_upper,
+           "pick": f_pick, "width": f_width}
+PY_VARS = {"k1": 7, "match": 3, "_": -4, "half": 0.5, "sep": "-", "flag": True, "nil": None}
+INT_LITS = ["0", "1", "7", "42", "1000000", "123456789"]
+FLT_LITS = ["1.", ".5", "1e5", "1E-3", "1.5e+10", "0.1", "00.5", "1e-17", "2.5e-05", "0e0", "3.0", "0.30000000000000004",
+            "1.E2", "12.e-1", "0.0"]
+STR_LITS = ["'a'", '"b"', "\"it's\"", "''", "'x-1'", "'42'", '"True"', "'a b'", "'f(x, y)'", "'#'"]
+BIG_LITS = ["123456789012345678901234567890", "6.02214076e+23", "1e+16", "1e308", "1.7976931348623157e+308"]
+
+
+def py_funs_tok():
+    return ",".join("%s=%s" % (enc(k), OPID[v]) for k, v in sorted(PY_FUNS.items()))
+
+
+def py_vars_tok():
+    return ",".join("%s=%s" % (enc(k), val_tok(v)) for k, v in sorted(PY_VARS.items()))
+
+
+def sp(rng):
+    return rng.choice(["", "", "", " ", "  ", "\t"])
+
+
+def gen_call(rng, name, args, trailing=True):
+    body = (sp(rng) + "," + sp(rng)).join(args)
+    if args and trailing and rng.random() < 0.08:
+        body += sp(rng) + ","                      # CPython accepts a trailing comma
+    return "%s(%s%s%s)" % (name, sp(rng), body, sp(rng))
+
+
+def gen_num(rng, depth, names):
+    r = rng.random()
+    if depth <= 0 or r < 0.3:
+        c = rng.random()
+        if c < 0.3:
+            return rng.choice(INT_LITS)
+        if c < 0.55:
+            return rng.choice(FLT_LITS)
+        if c < 0.65:
+            return rng.choice(["True", "False"])
+        if c < 0.8:
+            return rng.choice(names["num"])
+        if c < 0.9:
+            return "-" + sp(rng) + rng.choice(INT_LITS + FLT_LITS + names["num"])
+        return gen_call(rng, "five", [])
+    if r < 0.4:
+        return "-" + sp(rng) + gen_num(rng, depth - 1, names)
+    if r < 0.5:
+        return gen_call(rng, "neg", [gen_num(rng, depth - 1, names)])
+    if r < 0.6:
+        return gen_call(rng, "ite", [gen_any(rng, depth - 1, names), gen_num(rng, depth - 1, names), gen_num(rng, depth - 1, names)])
+    if r < 0.67:
+        return gen_call(rng, "lt", [gen_num(rng, depth - 1, names), gen_num(rng, depth - 1, names)])
+    if r < 0.74:
+        return gen_call(rng, "width", [rng.choice([gen_str(rng, depth - 1, names), rng.choice(INT_LITS), "True", "None",
+                                                   "-" + rng.choice(INT_LITS)])])
+    return gen_call(rng, rng.choice(["add", "sub", "mul", "max"]), [gen_num(rng, depth - 1, names), gen_num(rng, depth - 1, names)])
+
+
+def gen_str(rng, depth, names):
+    r = rng.random()
+    if depth <= 0 or r < 0.35:
+        return rng.choice(STR_LITS + names["str"])
+    if r < 0.6:
+        return gen_call(rng, "concat", [gen_str(rng, depth - 1, names), gen_str(rng, depth - 1, names)])
+    if r < 0.75:
+        return gen_call(rng, rng.choice(["rev", "upper"]), [gen_str(rng, depth - 1, names)])
+    return gen_call(rng, "pick", [gen_str(rng, depth - 1, names), gen_str(rng, depth - 1, names), gen_str(rng, depth - 1, names)])
+
+
+def gen_any(rng, depth, names):
+    r = rng.random()
+    if r < 0.5:
+        return gen_num(rng, depth, names)
+    if r < 0.8:
+        return gen_str(rng, depth, names)
+    if r < 0.9 or depth <= 0:
+        return rng.choice(["None", "nil", "flag"])
+    return gen_call(rng, "not_", [gen_any(rng, depth - 1, names)])
+
+
+def gen_source(rng):
+    """(source text, parameter types) of the sub-language"""
+    depth = rng.choice([0, 1, 2, 2, 3])
+    ptypes = rng.choice([None, [], [int], [float, int], [str], [int, str], [str, str, bool]])
+    names = {"num": ["k1", "match", "_", "half"], "str": ["sep"]}
+    params = []
+    if ptypes:
+        pool = {int: ["x", "y", "ARG0", "n_1"], float: ["u", "v"], str: ["s", "t", "ARG1"], bool: ["b", "c"]}
+        for t in ptypes:
+            nm = next(n for n in pool[t] if n not in params)
+            params.append(nm)
+            names["str" if t is str else "num"].append(nm)
+    body = rng.choice([gen_num, gen_num, gen_str, gen_any])(rng, depth, names)
+    if ptypes is None:
+        return sp(rng) + body + sp(rng), None
+    head = "lambda" + (" " + sp(rng) if params else sp(rng)) + (sp(rng) + "," + sp(rng)).join(params)
+    if params and rng.random() < 0.05:
+        head += ","
+    return head + sp(rng) + ":" + sp(rng) + body + sp(rng), ptypes
+
+
+EDIT_CHARS = "()()()',\":-+.eE0123456789abx_ \t,,*=[#lambda"
+
+
+def edit_text(rng, s):
+    for _ in range(rng.choice([1, 1, 2, 3])):
+        i = rng.randrange(len(s) + 1)
+        r = rng.random()
+        if r < 0.4 and s:
+            i = min(i, len(s) - 1)
+            s = s[:i] + s[i + 1:]
+        elif r < 0.8:
+            s = s[:i] + rng.choice(EDIT_CHARS) + s[i:]
+        elif s:
+            i = min(i, len(s) - 1)
+            s = s[:i] + rng.choice(EDIT_CHARS) + s[i + 1:]
+    return s
+
+
+# texts at the edge of the sub-language: what CPython accepts that the model must not read differently
+EDGE_TEXTS = ["f(a,)", "lambda a,: a", "(a)", "1_0", "00", "007", "0x10", "1j", "1e400", "b'a'", "'a' 'b'", "''''''", "a if b else c",
+              "not a", "a.b", "1..real", "1if x else 2", "lambda __debug__: 1", "__debug__", "f(*a)", "f(a=1)", "lambda a=1: a",
+              "lambda *a: a", "x1e-17", "1e-17", "- 3", "--3", "-x", "-f(x)", "f (x)", "f(x)(y)", "True(1)", "lambda: lambda: 1",
+              "f(lambda: 1)", " x", "x ", "\tx", " ", "-", "f()", "f( )", "f(,)", "f(a,,)", "lambda a,a: a", "lambda a b: a",
+              "lambda a: a, 3", "'it''s'", '"a"', "'a\\n'", "'a\\'", "1.e5", "1.5.2", ".", "..5", "1e", "1e+", "1e+-3", "1E5",
+              "0e0", "0.0e-0", "None", "none", "lambda None: 1", "lambda x: None", "nonlocal", "match", "case(1)", "type(1)",
+              "_", "__x__", "lambda", "lambda:", "lambda : 1", "lambda:1", "lambdax: 1", "lambda x:-1", "f(-1,-x)", "1e5-3", "1e-5-3",
+              "1.5e+10+1", "0b1", "0o7", "1__0", "1e1_0", "x'a'", "f('a'\"b\")", "'" * 3 + "a" + "'" * 3, "f(a)b", "f(a) b", "a,b",
+              "a,", "()", "f(())", "f((a))", "f(a)(", "f(a))", "((", "1 2", "1, 2", "#", "a#b", "a # b", "\\", "1.0.", "01",
+              "0_0", "9" * 60, "1" + "0" * 400 + ".0", "1e-400", "0." + "0" * 30 + "1", "-0", "-0.0", "- -0.0", "True", "-True",
+              "-None", "-'a'", "--'a'", "f(True, None)", "lambda True: 1", "lambda x, y: x", "lambda x ,y: x", "lambda x,\ty :x"]
+
+
+# ----------------------------------------------------------------------------------------------
 # evaluate
 # ----------------------------------------------------------------------------------------------
 
 def lit_types(ps):
-    return "%d.%d.%d" % (ps.tid(int), ps.tid(bool), ps.tid(float))
+    return "%d.%d.%d.%d" % (ps.tid(int), ps.tid(bool), ps.tid(float), ps.tid(str))
 
 
 def tree_case(d, ps, tree, rng, tagprefix):
@@ -545,17 +938,21 @@ def tree_case(d, ps, tree, rng, tagprefix):
     expect.append(enc(s))
     lines.append("C12 render %s" % nodes)
     expect.append(enc(s))
-    f, src = capture_compile(tree, pset)
+    f, src, how = capture_compile(tree, pset)
+    corr = None if how is None else "CORRESPONDENCE: " + how      # (a failing input, if there is one, goes first)
     if src is not None:
         lines.append("C12 src %s %s" % (ps.args_tok(), nodes))
         expect.append(enc(src))
+        # the hypotheses of C12.parse_compileSrc / evalSrc_compile hold for this tree and these argument names
+        lines.append("C12 srcok %s %s" % (ps.args_tok(), nodes))
+        expect.append("1")
     toks = [t for t in re.split("[ \t\n\r\f\v(),]", s) if t != ""]
     lines.append("C12 tokens %s" % enc(s))
     expect.append(",".join(enc(t) for t in toks))
     # --- every constant: the printed text must evaluate back to the value (oracle); the model reads Python's repr
     seen = set()
     for n in tree:
-        if isinstance(n, gp.Primitive) or isinstance(n.value, str):
+        if isinstance(n, gp.Primitive) or (isinstance(n.value, str) and id(n) in ps.sym):
             continue
         key = (type(n.value).__name__, repr(n.value))
         if key in seen:
@@ -570,17 +967,28 @@ def tree_case(d, ps, tree, rng, tagprefix):
         lines.append("C12 lit %s" % enc(repr(n.value)))
         expect.append("%s %s" % (val_tok(n.value), enc(repr(n.value))))
     # --- compiled callable vs direct evaluation of the prefix tree (oracle) and vs the model ---
-    in_types = list(pset.ins)
+    in_types = getattr(ps, "in_types", None) or list(pset.ins)
     tuples = arg_tuples(in_types, rng)
     got = []
     for tup in tuples:
-        v = call(f, pset, tup)
+        want = interp(list(tree), pset.context, argmap_of(pset, tup), ps.sym)
+        try:
+            v = call(f, pset, tup)
+        except Exception as e:  # noqa
+            v = e
+            if orc is None:
+                orc = "compiled %s%r raises %s: %s but direct evaluation of the prefix tree gives %r" % (
+                    s, tup, type(e).__name__, e, want)
         got.append(v)
-        want = interp(list(tree), pset.context, argmap_of(pset, tup))
-        if not same_value(v, want) and orc is None:
+        if not isinstance(v, Exception) and not same_value(v, want) and orc is None:
             orc = "compiled %s%r = %r but direct evaluation of the prefix tree gives %r" % (s, tup, v, want)
     lines.append("C12 ev %s %s %s %s %s" % (ps.funs_tok(), ps.vars_tok(), ps.args_tok(), nodes, tuples_tok(tuples)))
     expect.append(",".join(val_tok(v) for v in got))
+    if src is not None:
+        # --- CPython's parser / evaluator against the expression model, on the very text DEAP evaluated ---
+        pl, pe = py_lines(ps.funs_tok(), ps.vars_tok(), len(pset.arguments) > 0, src, tuples, got)
+        lines += pl
+        expect += pe
     # --- round trip ---
     try:
         back = gp.PrimitiveTree.from_string(s, pset)
@@ -610,7 +1018,7 @@ def tree_case(d, ps, tree, rng, tagprefix):
     except Bad:
         height = -1
     tag = "%s/%s/h=%d%s" % (tagprefix, d["ps"], min(height, 7), "/ops" if d.get("g", {}).get("ops") else "")
-    return Case(d, lines, expect, orc, tag=tag, nontrivial=len(tree) > 1)
+    return Case(d, lines, expect, orc if orc is not None else corr, tag=tag, nontrivial=len(tree) > 1)
 
 
 def evaluate(d):
@@ -630,7 +1038,7 @@ def evaluate(d):
                 t = make_tree(ps.pset, dict(g, mn=0, mx=1, ops=[]))
             trees.append(t)
         psets = [ps.pset for ps in fam]
-        f = gp.compileADF(trees, psets)
+        f, srcs, how = compile_adf_spied(trees, fam)
         if d.get("nmain", 1) == 0:
             tuples = [()]
         else:
@@ -653,14 +1061,86 @@ def evaluate(d):
         parts = []
         for ps, t in zip(fam, trees):
             parts.append("%s %s %s %s %s" % (enc(ps.pset.name), ps.args_tok(), ps.funs_tok(), ps.vars_tok(), ps.nodes_tok(t)))
-        line = "C12 adf %s %s" % (tuples_tok(tuples), " ".join(parts))
-        tag = "adf/main%d/%s" % (d.get("nmain", 1), "calls" if any(n.name.startswith("ADF") for n in trees[0]) else "plain")
-        cases = Case(d, [line], [",".join(val_tok(v) for v in got)], orc, tag=tag, nontrivial=True)
+        lines = ["C12 adf %s %s" % (tuples_tok(tuples), " ".join(parts))]
+        expect = [",".join(val_tok(v) for v in got)]
+        if srcs is not None:
+            pl, pe = adf_py_lines(fam, trees, srcs, tuples, got)
+            lines += pl
+            expect += pe
+        if orc is None and how is not None:
+            orc = "CORRESPONDENCE: " + how
+        tag = "adf/main%d/%s" % (d.get("nmain", 1), "calls" if calls_adf(trees[0]) else "plain")
         # each tree of the family also prints / parses / compiles on its own (ADF names are in the mapping)
-        if orc is None and d.get("each", True):
+        if (orc is None or orc.startswith("CORRESPONDENCE")) and d.get("each", True):
             sub = tree_print_only(fam[0], trees[0])
-            cases = Case(d, [line] + sub[0], [",".join(val_tok(v) for v in got)] + sub[1], sub[2], tag=tag, nontrivial=True)
-        return cases
+            lines += sub[0]
+            expect += sub[1]
+            orc = sub[2] if sub[2] is not None else orc
+        return Case(d, lines, expect, orc, tag=tag, nontrivial=True)
+
+    if k == "adf-seq":
+        # a parent, then an offspring that differs from it in ONE ADF branch only, compiled one after the other against
+        # the same sets (what a run does); the offspring's callable must compute the offspring's trees
+        fam = get_adf(1)
+        psets = [ps.pset for ps in fam]
+        A = []
+        for ps, g, cap in zip(fam, d["gs"], ADF_HEIGHT_CAP):
+            t = make_tree(ps.pset, g)
+            if t.height > cap:
+                t = make_tree(ps.pset, dict(g, mn=0, mx=1, ops=[]))
+            A.append(t)
+        for i in range(1, 12):                      # a main tree that calls an ADF
+            if calls_adf(A[0]):
+                break
+            A[0] = make_tree(psets[0], dict(d["gs"][0], seed=d["gs"][0]["seed"] + i, mn=1, mx=2, ops=[]))
+        if not calls_adf(A[0]):
+            A[0] = gp.PrimitiveTree.from_string("add(ADF1(ARG0, 1), ADF2(1, ARG0))", psets[0])
+        reach2 = "ADF2" in calls_adf(A[0]) or ("ADF1" in calls_adf(A[0]) and "ADF2" in calls_adf(A[1]))
+        branch = 2 if reach2 and (d.get("branch", 1) == 2 or "ADF1" not in calls_adf(A[0])) else 1
+        B = list(A)
+        for i in range(12):                         # another tree for that branch, everything else identical
+            nb = make_tree(psets[branch], dict(d["gb"], seed=d["gb"]["seed"] + i))
+            if nb.height > ADF_HEIGHT_CAP[branch]:
+                nb = make_tree(psets[branch], dict(d["gb"], seed=d["gb"]["seed"] + i, mn=0, mx=1, ops=[]))
+            if str(nb) != str(A[branch]):
+                B[branch] = nb
+                break
+
+        def direct(ind, level, args):
+            ps = psets[level]
+            ctx = dict(ps.context)
+            for j in range(level + 1, len(psets)):
+                ctx[psets[j].name] = (lambda jj: (lambda *a: direct(ind, jj, a)))(j)
+            return interp(list(ind[level]), ctx, argmap_of(ps, args))
+        tuples = [(v,) for v in [-2, -1, 0, 1, 2, 3] + [rng.randint(-9, 9) for _ in range(3)]]
+        fA, _srcA, _howA = compile_adf_spied(A, fam)
+        fB, srcs, how = compile_adf_spied(B, fam)          # straight after A, nothing in between
+        gotA = [fA(*t) for t in tuples]
+        gotB = [fB(*t) for t in tuples]
+        orc = None
+        for ind, got, who in ((B, gotB, "the offspring"), (A, gotA, "the parent (called after the offspring was compiled)")):
+            for t, v in zip(tuples, got):
+                w = direct(ind, 0, t)
+                if not same_value(v, w) and orc is None:
+                    orc = ("compileADF of %s [%s] returns %r at %r, its trees denote %r; compiled straight %s [%s]" % (
+                        who, " | ".join(map(str, ind)), v, t, w, "after the parent" if ind is B else "before the offspring",
+                        " | ".join(map(str, A if ind is B else B))))
+        parts = []
+        for trees in (A, B):
+            for ps, t in zip(fam, trees):
+                parts.append("%s %s %s %s %s" % (enc(ps.pset.name), ps.args_tok(), ps.funs_tok(), ps.vars_tok(),
+                                                 ps.nodes_tok(t)))
+        lines = ["C12 adfs %s %s" % (tuples_tok(tuples), " ".join(parts))]
+        expect = [",".join(val_tok(v) for v in gotA) + "|" + ",".join(val_tok(v) for v in gotB)]
+        if srcs is not None:
+            pl, pe = adf_py_lines(fam, B, srcs, tuples, gotB)
+            lines += pl
+            expect += pe
+        if orc is None and how is not None:
+            orc = "CORRESPONDENCE: " + how
+        differs = any(not same_value(a, b) for a, b in zip(gotA, gotB))
+        return Case(d, lines, expect, orc, tag="adf-seq/branch%d/%s" % (branch, "differs" if differs else "same"),
+                    nontrivial=differs)
 
     if k == "adf0":
         # a zero-argument ADF set; the main tree calls `ADF0()`
@@ -675,14 +1155,21 @@ def evaluate(d):
         line = "C12 adf %s %s" % (tuples_tok(tuples), " ".join(parts))
         a0 = interp(list(trees[1]), psets[1].context, {})
         want = [interp(list(trees[0]), dict(psets[0].context, ADF0=(lambda: a0)), argmap_of(psets[0], t)) for t in tuples]
+        lines, expect = [line], [",".join(val_tok(v) for v in want)]
         try:
-            f = gp.compileADF(trees, psets)
+            f, srcs, how = compile_adf_spied(trees, fam)
             got = [f(*t) for t in tuples]
             orc = None if all(same_value(a, b) for a, b in zip(got, want)) else \
                 "compileADF with a zero-argument ADF computes %r, the trees denote %r" % (got, want)
+            if srcs is not None:
+                pl, pe = adf_py_lines(fam, trees, srcs, tuples, got)
+                lines += pl
+                expect += pe
+            if orc is None and how is not None:
+                orc = "CORRESPONDENCE: " + how
         except TypeError as e:
             orc = "compileADF with a zero-argument ADF: calling the compiled program raises %s" % e
-        return Case(d, [line], [",".join(val_tok(v) for v in want)], orc, tag="adf0", nontrivial=True)
+        return Case(d, lines, expect, orc, tag="adf0", nontrivial=True)
 
     if k == "adf-late":
         # the callable of individual A, called after individual B was compiled against the same sets, must
@@ -743,7 +1230,7 @@ def evaluate(d):
             for tup in tuples:
                 v = f(*tup)
                 got.append(v)
-                want = interp(list(tree), ps.pset.context, argmap_of(ps.pset, tup))
+                want = interp(list(tree), ps.pset.context, argmap_of(ps.pset, tup), ps.sym)
                 if not same_value(v, want) and orc is None:
                     orc = "compiled against set %s: %s%r = %r but direct evaluation with that set's bindings gives %r" % (
                         ps.key, s, tup, v, want)
@@ -752,6 +1239,42 @@ def evaluate(d):
             expect.append(",".join(val_tok(v) for v in got))
         uses = any(n.name in ("max", "three") for n in ta)
         return Case(d, lines, expect, orc, tag="twin/%s" % ("differs" if uses else "same"), nontrivial=uses)
+
+    if k == "pysrc":
+        # a text of the expression sub-language (no tree, no DEAP): the model's parser must read it exactly as CPython's
+        # does and the model's evaluator must return what CPython's eval returns; `sound` = a broken text, where the
+        # model may refuse but must never read an AST other than CPython's
+        src = d["src"]
+        dmp = py_dump(src)
+        if d["mode"] == "sound":
+            line = "C12 pysound %s %s" % (encs(src), dmp if dmp is not None else "none")
+            return Case(d, [line], ["sound"], None, tag="pysrc/edited/%s" % ("python-accepts" if dmp is not None else "python-rejects"),
+                        nontrivial=dmp is not None)
+        ptypes = [TYPES[i] for i in d["ptypes"]] if d["ptypes"] is not None else None
+        tuples = arg_tuples(ptypes, rng, cap=6) if ptypes is not None else [()]
+        ctx = dict(PY_FUNS)
+        ctx.update(PY_VARS)
+        ctx["__builtins__"] = None
+        got = []
+        try:
+            with warnings.catch_warnings():
+                warnings.simplefilter("ignore")
+                obj = eval(src, ctx, {})
+        except Exception:  # noqa
+            obj, got = None, ["none"] * len(tuples)
+        else:
+            for tup in tuples:
+                try:
+                    v = obj(*tup) if ptypes is not None else obj
+                    got.append(val_tok(v))
+                except Exception:  # noqa
+                    got.append("none")
+        lines = ["C12 pyparse %s" % encs(src),
+                 "C12 pyeval %s %s %d %s %s" % (py_funs_tok(), py_vars_tok(), 1 if ptypes is not None else 0, encs(src),
+                                                tuples_tok(tuples))]
+        expect = [dmp if dmp is not None else "none", ",".join(got)]
+        return Case(d, lines, expect, None, tag="pysrc/generated/%s" % ("lambda" if ptypes is not None else "value"),
+                    nontrivial=len(src) > 3)
 
     if k == "text":
         # hand-made strings: tokenizer and from_string type checks (correspondence) — no oracle claim
@@ -834,10 +1357,30 @@ def generate(tier, rng, mult):
         gs = [gen_desc(rng, rng.randint(0, 2), 2, rng.choice(["full", "grow", "half"])) for _ in range(6)]
         yield {"k": "adf-late", "gs": gs, "seed": rng.randrange(1 << 30)}
     for _ in range((3000 if thorough else 200) * mult):
+        gs = [gen_desc(rng, rng.randint(0, 2), 2, rng.choice(["full", "grow", "half"])) for _ in range(3)]
+        yield {"k": "adf-seq", "gs": gs, "branch": rng.choice([1, 2]),
+               "gb": gen_desc(rng, rng.randint(0, 2), 2, rng.choice(["full", "grow", "half"])), "seed": rng.randrange(1 << 30)}
+    for _ in range((3000 if thorough else 200) * mult):
         mx = rng.choice([1, 2, 2, 3, 4])
         yield {"k": "twin", "g": gen_desc(rng, rng.randint(0, mx), mx, rng.choice(["full", "grow", "half"]),
                                           nops=rng.choice([0, 0, 1, 2])),
                "swap": rng.random() < 0.5, "seed": rng.randrange(1 << 30)}
+    for src in EDGE_TEXTS:
+        yield {"k": "pysrc", "mode": "sound", "src": src}
+    for _ in range((20000 if thorough else 700) * mult):
+        src, ptypes = gen_source(rng)
+        yield {"k": "pysrc", "mode": "pos", "src": src, "ptypes": [TYPES.index(t) for t in ptypes] if ptypes is not None else None,
+               "seed": rng.randrange(1 << 30)}
+        for _ in range(2):
+            yield {"k": "pysrc", "mode": "sound", "src": edit_text(rng, src)}
+    # evaluation that raises in CPython (TypeError / NameError) is `none` in the model
+    for src in ["-'a'", "-None", "neg('a')", "add('a', 1)", "five(1)", "nosuch", "nosuch(1)", "k1(1)", "add(1)", "concat('a', 1)",
+                "lt('a', 1)", "max(nil, 1)", "lambda x: y", "lambda x: x(1)", "lambda add: add(add, 1)", "lambda k1: k1",
+                "lambda sep, k1: sub(sep, k1)", "lambda flag: ite(flag, nil, half)"]:
+        yield {"k": "pysrc", "mode": "pos", "src": src, "ptypes": None if not src.startswith("lambda") else
+               [TYPES.index(int)] * (src.split(":")[0].count(",") + 1), "seed": 1}
+    for src in BIG_LITS + ["-" + x for x in BIG_LITS] + ["add(%s, 1)" % x for x in BIG_LITS[:1]]:
+        yield {"k": "pysrc", "mode": "pos", "src": src, "ptypes": None, "seed": 0}
     n = (120000 if thorough else 4000) * mult
     for i in range(n):
         r = rng.random()
@@ -886,7 +1429,7 @@ def shrink(d):
             e = dict(d)
             e["g"] = h
             yield e
-    if d["k"] in ("adf", "adf-late"):
+    if d["k"] in ("adf", "adf-late", "adf-seq"):
         for i, g in enumerate(d["gs"]):
             for h in smaller(g):
                 e = dict(d)
